@@ -555,3 +555,102 @@ def _aead_contract(variant, cname, nonce_len, tls13):
 _aead_contract('aesgcm12', 'aes128gcm', 4, False)
 _aead_contract('chacha12', 'chacha20-poly1305', 12, False)
 _aead_contract('tls13', 'aes256gcm', 12, True)
+
+
+# --- RecordLayer.calcPendingStates: key block slicing per role (C01 O-keys-mirror, C09) ------------------
+from pyvc.executor import SpecFn, Outcome as _Outcome
+from pyvc.values import VTuple, VPy, VOpaque, fresh_name
+from pyvc.state import State as _State
+
+MacKeyOf = S.uf('MacKeyOf', [_smt.Seq], _smt.Val)
+CipherKeyOf = S.uf('CipherKeyOf', [_smt.Seq], _smt.Val)
+KeyBlock = S.uf('KeyBlock', [_smt.Val, _smt.Val, _smt.I], _smt.Seq)
+
+
+def _mk_create_mac(ex, args, kw, st, fr, node):
+    o = S.make_mac('pendingMac', st)
+    st.fresh_objs.add(o.oid)
+    st.heap[(o.oid, 'key')] = VOpaque(MacKeyOf(args[0].t))
+    return [_Outcome('normal', st, o)]
+
+
+def _mk_create_cipher(kind):
+    def f(ex, args, kw, st, fr, node):
+        o = S.make_cipher('pendingCipher', st, kind)
+        st.fresh_objs.add(o.oid)
+        st.heap[(o.oid, 'key')] = VOpaque(CipherKeyOf(args[0].t))
+        if kind != 'aead':
+            st.heap[(o.oid, 'state')] = args[1]          # the IV is the initial chaining state
+        return [_Outcome('normal', st, o)]
+    return f
+
+
+def _cps_setup(kind):
+    """symbolic results of the parameter-table helpers (their tables are proved under C20): lengths are
+    arbitrary non-negative ints, the factories build objects keyed by exactly the bytes they are given"""
+    def setup(ex, st, ns):
+        kl, il, ml = [VInt(z3.Int(fresh_name(n))) for n in ('keyLength', 'ivLength', 'macLength')]
+        st.assume(S.And(kl >= 0, kl <= 64, il >= 0, il <= 64, ml >= 0, ml <= 64))
+        st.ghost['kl'], st.ghost['il'], st.ghost['ml'] = kl, il, ml
+        if kind == 'aead':
+            st.assume(ml == 0)
+        digestmod = VNone() if kind == 'aead' else VPy(object())
+        cf = VNone() if kind == 'null' else VPy(SpecFn(_mk_create_cipher('aead' if kind == 'aead' else 'block'), 'createCipher'))
+        ex.reg.external[R + 'RecordLayer._getCipherSettings'] = lambda ex, a, k, s, fr, n: [_Outcome('normal', s, VTuple([kl, il, cf]))]
+        ex.reg.external[R + 'RecordLayer._getMacSettings'] = lambda ex, a, k, s, fr, n: [_Outcome('normal', s, VTuple([ml, digestmod]))]
+        ex.reg.external[R + 'RecordLayer._getHMACMethod'] = lambda ex, a, k, s, fr, n: [_Outcome('normal', s, VPy(SpecFn(_mk_create_mac, 'createMAC')))]
+
+        def calc_key(ex, a, k, s, fr, n):
+            olen = k['output_length']
+            kb = VSeq(KeyBlock(S.to_val(a[1]), S.to_val(k['client_random']), olen.t), 'byte')
+            s.assume(z3.And(_smt.slen(kb.t) == olen.t, _smt.isb(kb.t)))
+            s.ghost['keyBlock'] = kb
+            return [_Outcome('normal', s, kb)]
+        ex.reg.external['tlslite/mathtls.py:calc_key'] = calc_key
+    return setup
+
+
+def _cps_ensures(kind):
+    def ens(ns):
+        kb = ns.ghost('keyBlock')
+        kl, il, ml = ns.ghost('kl'), ns.ghost('il'), ns.ghost('ml')
+        w = ns.f(ns.self, '_pendingWriteState')
+        r = ns.f(ns.self, '_pendingReadState')
+        client = ns.old.f(ns.self, 'client')
+        # RFC 5246 6.3: client_write_MAC_key, server_write_MAC_key, client_write_key, server_write_key, client_write_IV, server_write_IV
+        cm, sm = kb[0:ml], kb[ml:2 * ml]
+        ck, sk = kb[2 * ml:2 * ml + kl], kb[2 * ml + kl:2 * ml + 2 * kl]
+        ci, si = kb[2 * ml + 2 * kl:2 * ml + 2 * kl + il], kb[2 * ml + 2 * kl + il:2 * ml + 2 * kl + 2 * il]
+
+        def state_is(s, mk, k, iv):
+            facts = []
+            if kind != 'aead':
+                facts.append(S.to_val(ns.f(ns.f(s, 'macContext'), 'key')) == MacKeyOf(mk.t))
+            if kind != 'null':
+                facts.append(S.to_val(ns.f(ns.f(s, 'encContext'), 'key')) == CipherKeyOf(k.t))
+                if kind == 'aead':
+                    facts.append(ns.f(s, 'fixedNonce') == iv)
+                else:
+                    facts.append(ns.f(ns.f(s, 'encContext'), 'state') == iv)
+            facts.append(ns.f(s, 'seqnum') == 0)
+            return S.And(*[VBool(f) if not hasattr(f, 't') else f for f in facts])
+        return S.ite(client,
+                     S.And(state_is(w, cm, ck, ci), state_is(r, sm, sk, si),
+                           ns.f(w, 'encryptThenMAC') == ns.old.f(ns.old.f(ns.self, '_pendingWriteState'), 'encryptThenMAC')),
+                     S.And(state_is(w, sm, sk, si), state_is(r, cm, ck, ci),
+                           ns.f(r, 'encryptThenMAC') == ns.old.f(ns.old.f(ns.self, '_pendingReadState'), 'encryptThenMAC')))
+    return ens
+
+
+for _kind in ('block', 'null', 'aead'):
+    contract(R + 'RecordLayer.calcPendingStates', name='RecordLayer.calcPendingStates[%s]' % _kind,
+             params={'self': T.obj(RL.RecordLayer, _version=VERSION, client=T.bool(), _tls13record=T.bool(),
+                                   _pendingWriteState=T.obj(RL.ConnectionState, encryptThenMAC=T.bool()),
+                                   _pendingReadState=T.obj(RL.ConnectionState, encryptThenMAC=T.bool())),
+                     'cipherSuite': T.int(), 'masterSecret': T.bytes(), 'clientRandom': T.bytes(),
+                     'serverRandom': T.bytes(), 'implementations': T.opaque()},
+             requires=lambda ns: tls10_12(ns.f(ns.self, '_version')),
+             setup=_cps_setup(_kind), ensures=_cps_ensures(_kind), raises={},
+             prop=('C01', 'C09'),
+             doc='the key block is sliced in RFC 5246 6.3 order; the client writes with the client keys and reads with the '
+                 'server keys, the server the other way round (so client-write == server-read and vice versa); sequence numbers start at 0')
